@@ -147,6 +147,28 @@ def post_code(ctx, ops, impl):
     return bad
 
 
+def gen_basic(rng, tier):
+    """password authenticator histories: add / update / authenticate / uniqueness probes with logins in both letter cases"""
+    def hx(t):
+        return "x" + t.encode().hex()
+    names = ["alice", "Alice", "ALICE", "bob", "Bob", "bo.b_1", "carol", "x", "ab", "a_", "_ab", "ab.", "dave99", "DAVE99", "e" * 32, "f" * 33, ""]
+    pws = ["secret1", "Secret1", "pw", "", "pass:word", "longer password", "1234", "123"]
+    for _ in range(60 if tier == "thorough" else 12):
+        yield "reset"
+        for _ in range(6 + rng.below(14)):
+            k = rng.below(10)
+            n, p = rng.choice(names), rng.choice(pws)
+            sec = hx(n + ":" + p) if rng.chance(19, 20) else hx(n + p)
+            if k < 3:
+                yield f"add {rng.choice(['U1', 'U2', 'U3'])} {rng.choice(['auth', 'root', 'none', 'anon'])} {sec}" + (" expired" if rng.chance(1, 10) else "")
+            elif k < 4:
+                yield f"upd {rng.choice(['U1', 'U2', 'U3'])} auth {sec}"
+            elif k < 8:
+                yield f"auth {sec}"
+            else:
+                yield f"uniq {sec}"
+
+
 PROP = dict(
     id="C12",
     level_text="Kernel-checked Lean theorems: a token is accepted iff its 50 bytes are well formed, tagged with the MAC of the "
@@ -156,16 +178,20 @@ PROP = dict(
                "wrong guesses (induction over all guess sequences). Tied to the real authenticators by differential runs "
                "with tokens and keys built independently (Python hmac).",
     level_note="PARTIAL: unforgeability itself is a computational assumption about HMAC-SHA256/HMAC-MD5 (parameters `mac`); "
-               "time is sampled away from the expiry boundary (no clock hook); the basic (password) authenticator's clauses are "
-               "covered only when the `basic` stream is present in the evidence; an extended token (valid 50 bytes + trailing "
+               "time is sampled away from the expiry boundary (no clock hook); the password authenticator is modelled with bcrypt "
+               "abstracted (a stored hash matches exactly its password) and ASCII logins (Props/C12b.lean, stream `basic` through the real "
+               "authenticator over the in-memory adapter); an extended token (valid 50 bytes + trailing "
                "bytes) is accepted by design of the statement ('signed fields and signature').",
     technique="Lean 4 proof (case analysis, list/byte arithmetic by omega, induction over guess sequences) + differential correspondence with independently built secrets",
-    modules=["TinodeVerif.Props.C12"],
+    modules=["TinodeVerif.Props.C12", "TinodeVerif.Props.C12b"],
     theorems=[T + n for n in ["token_auth_iff", "token_accept_needs_mac", "token_mutation_refused", "token_roundtrip",
-                              "apikey_valid_iff", "code_once", "code_lockout", "wrong_code_never"]],
+                              "apikey_valid_iff", "code_once", "code_lockout", "wrong_code_never", "password_auth_sound",
+                              "unknown_login_fails", "wrong_password_fails", "login_lowercased", "add_keeps_unique", "taken_login_refused"]],
     streams=[dict(name="tok", pkg="token", gen=gen_tok, classify=classify),
              dict(name="key", pkg="main", gen=gen_key, classify=classify),
-             dict(name="code", pkg="code", gen=gen_code, classify=classify, post=post_code)],
+             dict(name="code", pkg="code", gen=gen_code, classify=classify, post=post_code),
+             dict(name="basic", pkg="main", test="TestVerifBasic", gen=gen_basic, model_mode="basic", verdict_mode=None,
+                  classify=lambda o, i: i.split(" ")[0])],
     seeds=dict(quick=1, thorough=3),
     rule="tokens built with Python hmac under 3 keys x 4 serials: valid, every single-bit flip (all 400 thorough / 60 sampled "
          "quick), truncations, extensions, foreign key, wrong serial incl. +-65536, expired, invalid level; GenSecret/Authenticate "
